@@ -933,6 +933,11 @@ def _r3(ctx, oa):
                 pl = o['rv']['place']
                 if pl['l'] == 1 and field_path(pl['p']) == ['convergence']:
                     sw = (bi, t)
+                else:
+                    # the threshold copied into a local (a tracker struct's field, a hoisted `let`)
+                    po = tr.origin(dict(pl, k='copy'))
+                    if po['o'] == 'arg' and po['l'] == 1 and field_path(po['p']) == ['convergence']:
+                        sw = (bi, t)
     if not rep.check(sw is not None, 'R3', 'anchor:convergence-switch', where(b), 'found',
                      'no branch on self.convergence being Some found in the stepping function', 'anchor-lost'):
         return
